@@ -120,6 +120,10 @@ class Block2Cache:
         block_key = _extract_block_key(req)
 
         if req.opt.block2 is None or req.opt.block2.block_number == 0:
+            # Whatever was rendered for this key before is superseded: later
+            # blocks are served from what is rendered now -- or not at all, if
+            # that fails or is small enough not to be kept
+            self._completes.pop(block_key, None)
             assembled = await response_builder()
         else:
             try:
